@@ -1,6 +1,6 @@
 (* C05 proofs about the BAM record codec model (Bam/Encode.v, Bam/Decode.v). *)
 From Coq Require Import List NArith ZArith Bool Lia ZifyBool ZifyNat ZifyN.
-From NV Require Import Index.Bins Bam.Record Bam.Encode Bam.Decode.
+From NV Require Import Index.Bins Index.BinsProofs Bam.Record Bam.Encode Bam.Decode.
 Import ListNotations.
 Open Scope N_scope.
 Ltac Zify.zify_post_hook ::= Z.div_mod_to_equations.
@@ -168,3 +168,321 @@ Qed.
 
 Lemma enc_op_rejects : forall k l, max_op_len < l -> enc_op (k, l) = Err InvalidInput.
 Proof. intros k l H. unfold enc_op. destruct (l <=? max_op_len) eqn:E; [lia|reflexivity]. Qed.
+
+(* ---------- bases ---------- *)
+Definition norm_base (b : N) : N := nth_base (encode_base b).
+
+Lemma list_ind2 : forall (P : bytes -> Prop),
+  P [] -> (forall x, P [x]) -> (forall x y t, P t -> P (x :: y :: t)) -> forall l, P l.
+Proof.
+  intros P H0 H1 H2. fix IH 1. intros [|x [|y t]]; [exact H0|apply H1|apply H2, IH].
+Qed.
+
+Lemma find_code_bound : forall b tbl i, find_code b tbl i = 15 \/ (i <= find_code b tbl i < i + lenN tbl).
+Proof.
+  intros b tbl. induction tbl as [|c r IH]; intros i; cbn [find_code lenN]; [left; reflexivity|].
+  destruct ((b =? c) || (b =? to_lower c)); [right; lia|].
+  destruct (IH (i + 1)) as [H|H]; [left; exact H|right; lia].
+Qed.
+
+Lemma encode_base_lt : forall b, encode_base b < 16.
+Proof.
+  intros b. unfold encode_base. destruct (find_code_bound b BASES 0) as [H|H]; [lia|].
+  change (lenN BASES) with 16 in H. lia.
+Qed.
+
+Lemma seq_roundtrip : forall s, firstnN (lenN s) (unpack_bases (pack_bases s)) = map norm_base s.
+Proof.
+  apply list_ind2.
+  - reflexivity.
+  - intros x. pose proof (encode_base_lt x) as Hx. pose proof (encode_base_lt 61) as He.
+    cbn [pack_bases unpack_bases lenN]. change (1 + 0) with 1. cbn [firstnN map].
+    change (1 =? 0) with false. cbv iota. change (1 - 1) with 0. cbn [firstnN]. change (0 =? 0) with true.
+    cbv iota. unfold norm_base. f_equal. f_equal. lia.
+  - intros x y t IH. pose proof (encode_base_lt x) as Hx. pose proof (encode_base_lt y) as Hy.
+    cbn [pack_bases unpack_bases lenN map]. cbn [firstnN].
+    destruct (1 + (1 + lenN t) =? 0) eqn:E1; [lia|].
+    replace (1 + (1 + lenN t) - 1) with (1 + lenN t) by lia.
+    destruct (1 + lenN t =? 0) eqn:E2; [lia|].
+    replace (1 + lenN t - 1) with (lenN t) by lia. rewrite IH. unfold norm_base.
+    f_equal; [f_equal; lia|]. f_equal. f_equal. lia.
+Qed.
+
+Lemma pack_length : forall s, lenN (pack_bases s) = (lenN s + 1) / 2.
+Proof.
+  apply list_ind2.
+  - reflexivity.
+  - intros x. reflexivity.
+  - intros x y t IH. cbn [pack_bases lenN]. rewrite IH. lia.
+Qed.
+
+Lemma enc_seq_ok : forall rl s bs, enc_seq rl s = Ok bs -> bs = pack_bases s.
+Proof.
+  intros rl s bs H. destruct s as [|x s]; cbn [enc_seq] in H; [injection H as H; subst; reflexivity|].
+  destruct ((0 <? rl) && negb (lenN (x :: s) =? rl)); [discriminate|]. injection H as H. auto.
+Qed.
+
+(* c05_reject_not_truncate, sequence part *)
+Lemma enc_seq_rejects : forall rl s, s <> [] -> 0 < rl -> lenN s <> rl -> enc_seq rl s = Err InvalidInput.
+Proof.
+  intros rl s Hs Hr Hl. destruct s as [|x s]; [congruence|]. cbn [enc_seq].
+  destruct ((0 <? rl) && negb (lenN (x :: s) =? rl)) eqn:E; [reflexivity|]. lia.
+Qed.
+
+(* ---------- qualities ---------- *)
+Lemma repeatN_length : forall x f, lenN (repeatN x f) = lenN f.
+Proof. induction f as [|y f IH]; cbn [repeatN lenN]; [reflexivity|]. rewrite IH. reflexivity. Qed.
+
+Lemma repeatN_all : forall f, forallb (fun b => b =? 255) (repeatN 255 f) = true.
+Proof. induction f as [|y f IH]; cbn [repeatN forallb]; [reflexivity|]. rewrite IH. reflexivity. Qed.
+
+Lemma qual_roundtrip : forall sq ql q, enc_qual sq ql = Ok q ->
+  lenN q = lenN sq /\ (if lenN sq =? 0 then [] else dec_qual q) = ql.
+Proof.
+  intros sq ql q H. unfold enc_qual in H. destruct (lenN ql =? lenN sq) eqn:El.
+  - destruct (forallb (fun x => x <=? 93) ql) eqn:Ef; [|discriminate]. injection H as H. subst q.
+    split; [lia|]. destruct ql as [|a ql].
+    + cbn [lenN] in El. destruct (lenN sq =? 0); reflexivity.
+    + cbn [lenN] in El. destruct (lenN sq =? 0) eqn:E0; [lia|]. unfold dec_qual.
+      cbn [forallb] in Ef |- *. apply andb_true_iff in Ef. destruct Ef as [Ha _].
+      destruct (a =? 255) eqn:E5; [lia|]. reflexivity.
+  - destruct ql as [|a ql]; [|discriminate]. injection H as H. subst q. rewrite repeatN_length.
+    split; [reflexivity|]. cbn [lenN] in El. destruct (lenN sq =? 0) eqn:E0; [lia|].
+    unfold dec_qual. rewrite repeatN_all. reflexivity.
+Qed.
+
+Lemma enc_qual_rejects_score : forall sq ql, lenN ql = lenN sq -> (exists x, In x ql /\ 93 < x) ->
+  enc_qual sq ql = Err InvalidInput.
+Proof.
+  intros sq ql Hl (x & Hin & Hx). unfold enc_qual. destruct (lenN ql =? lenN sq) eqn:E; [|lia].
+  destruct (forallb (fun q => q <=? 93) ql) eqn:Ef; [|reflexivity].
+  rewrite forallb_forall in Ef. specialize (Ef x Hin). lia.
+Qed.
+
+Lemma enc_qual_rejects_length : forall sq ql, ql <> [] -> lenN ql <> lenN sq -> enc_qual sq ql = Err InvalidInput.
+Proof.
+  intros sq ql Hq Hl. unfold enc_qual. destruct (lenN ql =? lenN sq) eqn:E; [lia|].
+  destruct ql; [congruence|reflexivity].
+Qed.
+
+(* ---------- name ---------- *)
+Lemma split_last_snoc : forall s x, split_last (s ++ [x]) = Some (s, x).
+Proof.
+  induction s as [|a s IH]; intros x; [reflexivity|].
+  cbn [app]. specialize (IH x). destruct (s ++ [x]) as [|b t] eqn:E.
+  - destruct s; discriminate E.
+  - cbn [split_last] in IH |- *. rewrite IH. reflexivity.
+Qed.
+
+Lemma name_roundtrip : forall o bs, enc_name o = Ok bs -> dec_name bs = Ok o.
+Proof.
+  intros o bs H. destruct o as [s|]; cbn [enc_name] in H.
+  - destruct (name_valid s) eqn:Ev; [|discriminate]. injection H as H. subst bs. unfold dec_name.
+    destruct (list_eqb (s ++ [0]) [42; 0]) eqn:E.
+    + apply list_eqb_eq in E. assert (Hs : s = [42]).
+      { destruct s as [|a [|b s]]; try discriminate E; [injection E as E; subst; reflexivity|].
+        cbn [app] in E. injection E as _ _ E. destruct s; discriminate E. }
+      subst s. discriminate Ev.
+    + rewrite split_last_snoc. reflexivity.
+  - injection H as H. subst bs. reflexivity.
+Qed.
+
+Lemma enc_name_len_ok : forall o a, enc_name_len o = Ok a ->
+  exists n, a = [n] /\ n = (match o with Some s => lenN s | None => 1 end) + 1 /\ n <= 255.
+Proof.
+  intros o a H. unfold enc_name_len in H.
+  destruct ((match o with Some s => lenN s | None => 1 end) + 1 <=? 255) eqn:E; [|discriminate].
+  injection H as H. eexists. split; [symmetry; exact H|]. split; [reflexivity|lia].
+Qed.
+
+(* c05_reject_not_truncate, name part: 255 bytes or more never reach the u8 length field *)
+Lemma enc_name_len_rejects : forall s, 254 < lenN s -> enc_name_len (Some s) = Err InvalidInput.
+Proof. intros s H. unfold enc_name_len. destruct (lenN s + 1 <=? 255) eqn:E; [lia|reflexivity]. Qed.
+
+Lemma enc_name_length : forall o bs, enc_name o = Ok bs ->
+  lenN bs = (match o with Some s => lenN s | None => 1 end) + 1.
+Proof.
+  intros o bs H. destruct o as [s|]; cbn [enc_name] in H.
+  - destruct (name_valid s); [|discriminate]. injection H as H. subst bs. rewrite lenN_app. reflexivity.
+  - injection H as H. subst bs. reflexivity.
+Qed.
+
+(* ---------- ids and positions ---------- *)
+Lemma to_signed4_small : forall n, n <= i32_max -> to_signed 4 n = Z.of_N n.
+Proof.
+  intros n H. unfold to_signed, i32_max in *. change (pow256 4 / 2) with 2147483648.
+  destruct (n <? 2147483648) eqn:E; [reflexivity|lia].
+Qed.
+
+Lemma rid_roundtrip : forall nref o a, enc_rid nref o = Ok a ->
+  exists n, a = leW 4 n /\ n < pow256 4 /\ dec_rid (to_signed 4 n) = Ok o.
+Proof.
+  intros nref o a H. rewrite pow256_4. destruct o as [id|]; cbn [enc_rid] in H.
+  - destruct (id <? nref); [|discriminate]. destruct (id <=? i32_max) eqn:E; [|discriminate].
+    injection H as H. subst a. exists id. split; [reflexivity|]. unfold i32_max in E. split; [lia|].
+    rewrite to_signed4_small by (unfold i32_max; lia). unfold dec_rid.
+    destruct (Z.of_N id =? -1)%Z eqn:E1; [lia|]. destruct (Z.of_N id <? 0)%Z eqn:E2; [lia|].
+    rewrite N2Z.id. reflexivity.
+  - injection H as H. subst a. exists 4294967295. split; [reflexivity|]. split; [lia|]. reflexivity.
+Qed.
+
+Lemma pos_roundtrip : forall o a, (forall p, o = Some p -> 1 <= p) -> enc_pos o = Ok a ->
+  exists n, a = leW 4 n /\ n < pow256 4 /\ dec_pos (to_signed 4 n) = Ok o.
+Proof.
+  intros o a Hp H. rewrite pow256_4. destruct o as [p|]; cbn [enc_pos] in H.
+  - specialize (Hp p eq_refl). destruct (p - 1 <=? i32_max) eqn:E; [|discriminate].
+    injection H as H. subst a. exists (p - 1). split; [reflexivity|]. unfold i32_max in E. split; [lia|].
+    rewrite to_signed4_small by (unfold i32_max; lia). unfold dec_pos.
+    destruct (Z.of_N (p - 1) =? -1)%Z eqn:E1; [lia|]. destruct (Z.of_N (p - 1) <? 0)%Z eqn:E2; [lia|].
+    rewrite N2Z.id. f_equal. f_equal. lia.
+  - injection H as H. subst a. exists 4294967295. split; [reflexivity|]. split; [lia|]. reflexivity.
+Qed.
+
+(* c05_reject_not_truncate, coordinates: anything that does not fit an i32 is an error *)
+Lemma enc_pos_rejects : forall p, i32_max < p - 1 -> enc_pos (Some p) = Err InvalidInput.
+Proof. intros p H. cbn [enc_pos]. destruct (p - 1 <=? i32_max) eqn:E; [lia|reflexivity]. Qed.
+
+Lemma enc_rid_rejects : forall nref id, nref <= id \/ i32_max < id -> enc_rid nref (Some id) = Err InvalidInput.
+Proof.
+  intros nref id H. cbn [enc_rid]. destruct (id <? nref) eqn:E1; [|reflexivity].
+  destruct (id <=? i32_max) eqn:E2; [lia|reflexivity].
+Qed.
+
+(* an accepted position is stored exactly (no wrap) *)
+Lemma enc_pos_exact : forall p a, 1 <= p -> enc_pos (Some p) = Ok a -> rdW 4 a = Some (p - 1, []).
+Proof.
+  intros p a Hp H. cbn [enc_pos] in H. cbv zeta in H. destruct (p - 1 <=? i32_max) eqn:E; [|discriminate].
+  assert (Ha : a = leW 4 (p - 1)) by (injection H as H; rewrite <- H; reflexivity).
+  subst a. unfold i32_max in E. rewrite <- (app_nil_r (leW 4 (p - 1))).
+  apply rdW_leW. rewrite pow256_4. lia.
+Qed.
+
+(* ---------- bin ---------- *)
+Lemma alignment_end_ge : forall s c, 1 <= s -> s <= alignment_end s c.
+Proof. intros s c Hs. unfold alignment_end. destruct (ref_span c =? 0) eqn:E; lia. Qed.
+
+Lemma bin_exact : forall s c, 1 <= s -> alignment_end s c <= 2 ^ 29 ->
+  bin_of (Some s) c = reg2bin 14 5 s (alignment_end s c).
+Proof.
+  intros s c Hs He. unfold bin_of. apply N.mod_small. pose proof (alignment_end_ge s c Hs) as Hge.
+  unfold reg2bin. apply N.lt_trans with (m := max_id 5).
+  - apply BinsProofs.reg2bin_lt_max_id; [lia|]. rewrite N.shiftr_div_pow2.
+    change (14 + 3 * N.of_nat 5) with 29. apply N.div_small. lia.
+  - vm_compute. reflexivity.
+Qed.
+
+Lemma bin_lt : forall pos c, bin_of pos c < pow256 2.
+Proof. intros pos c. rewrite pow256_2. unfold bin_of. destruct pos; [apply N.mod_lt; discriminate|reflexivity]. Qed.
+
+(* ---------- whole record ---------- *)
+Definition wf (r : record) : Prop :=
+  r_flags r < 4096 /\ (forall q, r_mapq r = Some q -> q < 255) /\
+  (forall p, r_pos r = Some p -> 1 <= p) /\ (forall p, r_mpos r = Some p -> 1 <= p) /\
+  (- 2147483648 <= r_tlen r < 2147483648)%Z /\ Forall op_ok (r_cigar r).
+
+(* the normalisation the property allows: bases case-folded / mapped to N, a user CG field dropped *)
+Definition norm (r : record) : record :=
+  mkRecord (r_name r) (r_flags r) (r_rid r) (r_pos r) (r_mapq r) (r_cigar r) (r_mrid r) (r_mpos r)
+           (r_tlen r) (map norm_base (r_seq r)) (r_qual r)
+           (filter (fun p => negb (tag_eqb (fst p) CG)) (r_data r)).
+
+Lemma lenN_cons : forall (A : Type) (x : A) l, lenN (x :: l) = 1 + lenN l.
+Proof. reflexivity. Qed.
+
+Lemma rd1 : forall x r, rd 1 (x :: r) = Ok (x, r).
+Proof. intros x r. unfold rd. cbn [rdW]. f_equal. f_equal. lia. Qed.
+
+Lemma resolve_nil : forall s c, resolve s c [] = Ok (c, []).
+Proof.
+  intros s c. unfold resolve. destruct c as [|[k0 l0] [|[k1 l1] [|op c]]]; try reflexivity.
+  destruct ((k0 =? 4) && (l0 =? lenN s) && (k1 =? 3)); reflexivity.
+Qed.
+
+Ltac bind_ok H x E :=
+  match type of H with
+  | bindr ?e _ = Ok _ => destruct e as [x|] eqn:E; cbn [bindr] in H; [|discriminate H]
+  end.
+
+Lemma body_roundtrip_nodata : forall nref r body,
+  wf r -> r_data r = [] -> lenN (r_cigar r) <= 65535 ->
+  encode_body nref r = Ok body ->
+  decode_body body = Ok (norm r) /\ validate body = Ok tt.
+Proof.
+  intros nref r body Hwf Hd Hc H.
+  destruct r as [name flags rid pos mapq cigar mrid mpos tlen sq ql dt].
+  unfold wf in Hwf. cbn [r_name r_flags r_rid r_pos r_mapq r_cigar r_mrid r_mpos r_tlen r_seq r_qual r_data] in *.
+  destruct Hwf as (Hfl & Hmq & Hpos & Hmpos & Htl & Hops). subst dt.
+  unfold encode_body in H.
+  cbn [r_name r_flags r_rid r_pos r_mapq r_cigar r_mrid r_mpos r_tlen r_seq r_qual r_data] in H.
+  bind_ok H ridb Erid. bind_ok H posb Epos. bind_ok H lnb Eln.
+  unfold cigar_slot in H. destruct (lenN cigar <=? 65535) eqn:Ec; [|lia].
+  destruct (lenN sq <? 4294967296) eqn:Els; cbn [bindr] in H; [|discriminate H].
+  bind_ok H mridb Emrid. bind_ok H mposb Empos. bind_ok H nameb Ename. bind_ok H cigb Ecig.
+  bind_ok H sqb Esq. bind_ok H qlb Eql. cbn [enc_data bindr] in H.
+  assert (Hbody : body = ridb ++ posb ++ lnb ++ enc_mapq mapq ++ leW 2 (bin_of pos cigar) ++
+                         leW 2 (lenN cigar) ++ leW 2 flags ++ leW 4 (lenN sq) ++ mridb ++ mposb ++
+                         enc_num 4 tlen ++ nameb ++ cigb ++ sqb ++ qlb ++ [] ++ [])
+    by (injection H as H; rewrite <- H; reflexivity).
+  clear H.
+  destruct (rid_roundtrip _ _ _ Erid) as (n1 & -> & Hn1 & Hr1).
+  destruct (pos_roundtrip _ _ Hpos Epos) as (n2 & -> & Hn2 & Hr2).
+  destruct (rid_roundtrip _ _ _ Emrid) as (n3 & -> & Hn3 & Hr3).
+  destruct (pos_roundtrip _ _ Hmpos Empos) as (n4 & -> & Hn4 & Hr4).
+  destruct (enc_name_len_ok _ _ Eln) as (ln & -> & Hln & Hln255).
+  pose proof (enc_name_length _ _ Ename) as Hnl. rewrite <- Hln in Hnl.
+  pose proof (name_roundtrip _ _ Ename) as Hnr.
+  pose proof (enc_cigar_length _ _ Ecig) as Hcl.
+  apply enc_seq_ok in Esq. subst sqb.
+  destruct (qual_roundtrip _ _ _ Eql) as [Hql Hqr].
+  pose proof (pack_length sq) as Hpl.
+  assert (Htu : to_unsigned 4 tlen < pow256 4) by apply to_unsigned_lt.
+  assert (Hts : to_signed 4 (to_unsigned 4 tlen) = tlen).
+  { apply to_signed_unsigned. change (pow256 4 / 2) with 2147483648. lia. }
+  assert (Hbin : bin_of pos cigar < pow256 2) by apply bin_lt.
+  assert (Hnops : lenN cigar < pow256 2) by (rewrite pow256_2; lia).
+  assert (Hflg : flags < pow256 2) by (rewrite pow256_2; lia).
+  assert (Hlsq : lenN sq < pow256 4) by (rewrite pow256_4; lia).
+  unfold enc_mapq, enc_num in Hbody. cbn [app] in Hbody.
+  split.
+  - subst body. unfold decode_body, rd_i32.
+    rewrite rd_leW by exact Hn1. cbn [bindr]. rewrite Hr1. cbn [bindr].
+    rewrite rd_leW by exact Hn2. cbn [bindr]. rewrite Hr2. cbn [bindr].
+    rewrite rd1. cbn [bindr]. destruct (ln =? 0) eqn:El0; [lia|].
+    rewrite rd1. cbn [bindr].
+    rewrite rd_leW by exact Hbin. cbn [bindr].
+    rewrite rd_leW by exact Hnops. cbn [bindr].
+    rewrite rd_leW by exact Hflg. cbn [bindr].
+    rewrite rd_leW by exact Hlsq. cbn [bindr].
+    rewrite rd_leW by exact Hn3. cbn [bindr]. rewrite Hr3. cbn [bindr].
+    rewrite rd_leW by exact Hn4. cbn [bindr]. rewrite Hr4. cbn [bindr].
+    rewrite rd_leW by exact Htu. cbn [bindr].
+    rewrite (take_app nameb) by (symmetry; exact Hnl). cbn [bindr]. rewrite Hnr. cbn [bindr].
+    rewrite (take_app cigb) by (symmetry; exact Hcl). cbn [bindr].
+    rewrite (cigar_roundtrip cigar cigb (length cigb) Hops Ecig)
+      by (rewrite !lenN_length in Hcl; lia).
+    cbn [bindr].
+    rewrite (take_app (pack_bases sq)) by (symmetry; exact Hpl). cbn [bindr].
+    rewrite seq_roundtrip. rewrite app_nil_r.
+    unfold norm. cbn [r_name r_flags r_rid r_pos r_mapq r_cigar r_mrid r_mpos r_tlen r_seq r_qual r_data filter].
+    assert (Hmq' : (if match mapq with Some q => q | None => 255 end =? 255 then None
+                    else Some match mapq with Some q => q | None => 255 end) = mapq).
+    { destruct mapq as [q|]; [|reflexivity]. specialize (Hmq q eq_refl).
+      destruct (q =? 255) eqn:E; [lia|reflexivity]. }
+    destruct (lenN sq =? 0) eqn:E0.
+    + cbn [bindr]. assert (qlb = []) by (destruct qlb; [reflexivity|cbn [lenN] in Hql; lia]). subst qlb.
+      cbn [length dec_data bindr]. rewrite resolve_nil. cbn [bindr].
+      rewrite Hmq', Hts. replace (flags mod 4096) with flags by lia.
+      rewrite <- Hqr. reflexivity.
+    + rewrite <- (app_nil_r qlb) at 1. rewrite (take_app qlb) by (symmetry; exact Hql). cbn [bindr].
+      cbn [length dec_data bindr]. rewrite resolve_nil. cbn [bindr].
+      rewrite Hmq', Hts. replace (flags mod 4096) with flags by lia.
+      rewrite Hqr. reflexivity.
+  - (* validate: the layout check of io/reader/record.rs accepts the encoder's output *)
+    assert (Hlen : lenN body = 32 + ln + 4 * lenN cigar + (lenN sq + 1) / 2 + lenN sq).
+    { subst body. repeat (rewrite lenN_app || rewrite lenN_cons). rewrite !leW_length, Hnl, Hcl, Hpl, Hql.
+      change (lenN (@nil N)) with 0. lia. }
+    unfold validate. rewrite Hlen. destruct (32 + ln + 4 * lenN cigar + (lenN sq + 1) / 2 + lenN sq <? 32) eqn:E32; [lia|].
+    subst body. cbn [leW app skipn]. cbn [rdW].
+    match goal with |- (if ?c then _ else _) = _ => assert (Hc' : c = false); [|rewrite Hc'; reflexivity] end.
+    apply N.ltb_ge. lia.
+Qed.
